@@ -200,7 +200,13 @@ impl World {
     let p2 = ord::InscriptionId { txid: p2_tx, index: 0 };
     let (p2h, p2t) = tx_pos(&node.core, p2_tx);
     let mut g = plain(&mut rng, "grandchild");
-    g.parents = vec![id_value(p2), id_value(parent), id_value(missing(7))];
+    // parents: the second parent, the first parent, every child of the first parent (they all sit in the
+    // output spent by the third input: more than one page of parents) and an id that does not exist
+    g.parents = vec![id_value(p2), id_value(parent)];
+    for k in 0..r.nchildren {
+      g.parents.push(id_value(ord::InscriptionId { txid: kids_tx, index: k as u32 }));
+    }
+    g.parents.push(id_value(missing(7)));
     let cb3 = node.fresh_coinbase();
     node.core.broadcast_tx(mockcore::TransactionTemplate {
       inputs: &[(cb3.0, cb3.1, cb3.2, witness_of(&[g])), (p2h, p2t, 0, bitcoin::Witness::new()), (kh, kt, 0, bitcoin::Witness::new())],
@@ -891,9 +897,16 @@ pub fn gen(rng: &mut Rng, tier: &str) -> Vec<Line> {
           reqs.push(Req { op, a: s, has_page: true, page });
         }
       }
+      let nparents = t.entries.get(s as usize).map(|e| e.parents.len()).unwrap_or(0) as u64;
       for op in [3u8, 4] {
         reqs.push(Req { op, a: s, has_page: false, page: 0 });
-        reqs.push(Req { op, a: s, has_page: true, page: rng.below(3) });
+        if nparents > 100 {
+          for page in 0..=(nparents / 100 + 1) {
+            reqs.push(Req { op, a: s, has_page: true, page });
+          }
+        } else {
+          reqs.push(Req { op, a: s, has_page: true, page: rng.below(3) });
+        }
       }
       reqs.push(Req { op: 7, a: s, has_page: false, page: 0 });
       reqs.push(Req { op: 9, a: s, has_page: false, page: 0 });
